@@ -113,8 +113,18 @@ package ws
 //@ loop (w *WebsocketConnection).writeShipPump #0
 //@   invariant @WSOK(w) && !w.shipWriteChannel.$chclosed
 
-//@ func NewWebsocketConnection(conn, remoteSki) [C02]
+//@ func NewWebsocketConnection(conn, remoteSki) [C02,C13]
 //@   ensures result != nil && result.conn == conn && result.remoteSki == remoteSki
+//@   ensures !result.connectionClosed && !result.shutdownOnce.$done && result.closeChannel == nil && result.shipWriteChannel == nil
+// the connection becomes usable (object invariants hold) once InitDataProcessing has run the pumps
+//@ func (w *WebsocketConnection).run() [C13]
+//@   requires !w.connectionClosed && !w.shutdownOnce.$done
+//@   ensures w.closeChannel != nil && w.shipWriteChannel != nil && w.closeChannel != w.shipWriteChannel && !w.closeChannel.$chclosed && !w.shipWriteChannel.$chclosed
+//@   modifies w.shipWriteChannel, w.closeChannel
+//@ func (w *WebsocketConnection).InitDataProcessing(dataProcessing) [C13]
+//@   requires dataProcessing != nil && !w.connectionClosed && !w.shutdownOnce.$done
+//@   establishes w
+//@   modifies w.shipWriteChannel, w.closeChannel, w.dataProcessing
 
 // ======================= lock discipline (C20) =======================
 //@ guarded WebsocketConnection.connectionClosed, WebsocketConnection.connectionClosedError by WebsocketConnection.muxConnClosed
